@@ -831,6 +831,10 @@ func (r *envelopingReader) Read(data []byte) (n int, err error) {
 	if len(data) > offset {
 		n, err = r.current.Read(data[offset:])
 	}
+	if offset+n > 0 && errors.Is(err, io.EOF) {
+		// End of the current message (possibly an empty one), not of the stream.
+		err = nil
+	}
 	return offset + n, err
 }
 
